@@ -3,16 +3,13 @@
 use crate::lzip::{LZIP_MAGIC, LZIP_VERSION};
 
 // C04-D: non-empty input that does not start with a valid LZIP member header must be an error, not an empty file.
-// (The format tolerates garbage only AFTER a complete member; this harness is about the very first member.)
-//@ {"name":"c04d_lzip_first_header_garbage","props":["C04","C06"],"obligation":"C04-D","timeout":1200,"mem_gb":9,"functions":["lzip::reader::LZIPReader::read","lzip::reader::LZIPReader::start_next_member","lzip::LZIPHeader::parse","lzip::decode_dict_size"],"bounds":"source = 1..=6 arbitrary bytes that are NOT a valid 6-byte header (wrong magic, version, or dictionary byte, or truncated); one read call; unwind 10","assumes":[]}
-#[kani::proof]
-#[kani::unwind(10)]
-#[kani::stub(crate::decoder::LZMADecoder::new, crate::decoder::verif_stubs_dec::verif_havoc_decoder)]
-fn c04d_lzip_first_header_garbage() {
+// (The format tolerates garbage only AFTER a complete member; these harnesses are about the very first member.)
+fn first_header_garbage(full: bool) {
     let src = Src::<6>::any();
     let b = src.buf;
     let n = src.len;
     kani::assume(n >= 1);
+    kani::assume(full == (n == 6));
     let magic_ok = b[0] == LZIP_MAGIC[0] && b[1] == LZIP_MAGIC[1] && b[2] == LZIP_MAGIC[2] && b[3] == LZIP_MAGIC[3];
     let valid = n == 6 && magic_ok && b[4] == LZIP_VERSION && crate::lzip::decode_dict_size(b[5]).is_ok();
     kani::assume(!valid);
@@ -23,8 +20,21 @@ fn c04d_lzip_first_header_garbage() {
     kani::cover!(n == 6 && magic_ok && b[4] != LZIP_VERSION, "unsupported version");
     kani::cover!(n == 6 && magic_ok && b[4] == LZIP_VERSION, "bad dictionary byte");
     kani::cover!(n < 6 && b[0] == LZIP_MAGIC[0], "truncated header");
+    kani::cover!(true, "end reached");
     core::mem::forget(r);
 }
+
+//@ {"name":"c04d_lzip_first_header_invalid","props":["C04","C06"],"obligation":"C04-D","timeout":1200,"mem_gb":9,"functions":["lzip::reader::LZIPReader::read","lzip::reader::LZIPReader::start_next_member","lzip::LZIPHeader::parse","lzip::decode_dict_size"],"bounds":"source = 6 arbitrary bytes that are NOT a valid header (wrong magic, version, or dictionary byte); one read call; unwind 10","assumes":[]}
+#[kani::proof]
+#[kani::unwind(10)]
+#[kani::stub(crate::decoder::LZMADecoder::new, crate::decoder::verif_stubs_dec::verif_havoc_decoder)]
+fn c04d_lzip_first_header_invalid() { first_header_garbage(true); }
+
+//@ {"name":"c04d_lzip_first_header_truncated","props":["C04","C05"],"obligation":"C04-D","timeout":1200,"mem_gb":9,"functions":["lzip::reader::LZIPReader::read","lzip::reader::LZIPReader::start_next_member","lzip::LZIPHeader::parse"],"bounds":"source = 1..=5 arbitrary bytes then end of input; one read call; unwind 10","assumes":[]}
+#[kani::proof]
+#[kani::unwind(10)]
+#[kani::stub(crate::decoder::LZMADecoder::new, crate::decoder::verif_stubs_dec::verif_havoc_decoder)]
+fn c04d_lzip_first_header_truncated() { first_header_garbage(false); }
 
 // C07-E: zero-length read on a fresh reader returns Ok(0) and consumes nothing.
 //@ {"name":"c07e_lzip_zero_len_read","props":["C07"],"obligation":"C07-E","timeout":600,"functions":["lzip::reader::LZIPReader::read"],"bounds":"any 6 source bytes; destination of length 0","assumes":[]}
